@@ -48,11 +48,13 @@
 enum { D_AB, D_BA, D_C, D_N }; // direction = sender: A->B, B->A, C->(nobody)
 static const char SND[] = { 'A', 'B', 'C' };
 typedef struct rec {
-	int accepted, got, maylose;
+	int accepted, got, maylose, pending;
+	int sub, done; // logical clock at submission / at completion (0 = not yet)
 } rec;
 static rec  R[D_N][MAXTAG];
 static int  ntag[D_N];
 static int  lastrx[D_N]; // last tag received in this direction
+static int  clk;         // logical clock of submissions and completions
 static int  budget[D_N]; // what buffer shrinks may have discarded
 static char hist[700];
 #define BODY 9
@@ -118,7 +120,9 @@ do_send(int who)
 	int      tag = ntag[dir]++;
 	nng_msg *m   = mk_msg(dir, tag);
 	int64_t  t0  = vs_now();
+	R[dir][tag].sub  = ++clk;
 	int      rv  = nng_sendmsg(SK[who], m, NNG_FLAG_NONBLOCK);
+	R[dir][tag].done = ++clk;
 	H(" send%c%d=%s", SND[who], tag,
 	    rv == 0 ? "ok" : rv == NNG_EAGAIN ? "EAGAIN" : "?");
 	if (vs_now() != t0)
@@ -177,19 +181,76 @@ do_recv(int who)
 		vs_fail("C08:phantom", "[%s] %c received %c%d which was never sent to "
 		    "it", hist, SND[who], SND[from], tag);
 	rec *r = &R[from][tag];
-	if (!r->accepted)
+	if (!r->accepted && !r->pending)
 		vs_fail("C08:phantom", "[%s] %c received %c%d whose send had been "
 		    "refused", hist, SND[who], SND[from], tag);
 	if (r->got)
 		vs_fail("C08:duplicate", "[%s] %c received %c%d twice", hist,
 		    SND[who], SND[from], tag);
-	if (tag < lastrx[from])
-		vs_fail("C08:order", "[%s] %c received %c%d after %c%d", hist,
-		    SND[who], SND[from], tag, SND[from], lastrx[from]);
+	// send order = real-time order of the calls: X precedes Y if X's send had
+	// completed before Y's was submitted (a send that is still WAITING overlaps
+	// everything issued meanwhile; without waiting sends this is tag order)
+	for (int y = 0; y < ntag[from]; y++)
+		if (R[from][y].got && r->done != 0 && R[from][y].sub > r->done)
+			vs_fail("C08:order", "[%s] %c received %c%d after %c%d although the send of "
+			    "%c%d had completed before %c%d was submitted", hist, SND[who], SND[from],
+			    tag, SND[from], y, SND[from], tag, SND[from], y);
 	r->got       = 1;
 	lastrx[from] = tag;
 	vs_settle();
 	return 1;
+}
+
+// asynchronous send that may wait on back-pressure (a BLOCKED sender): the tag
+// is fixed at submission, so the order clause covers "a sender that had to
+// wait does not overtake or fall behind what is queued"
+#define MAXAS 5
+typedef struct asend {
+	nng_aio *aio;
+	int      dir, tag, busy, ncb;
+} asend;
+static asend AS[2][MAXAS];
+static int   nas[2];
+static void
+as_cb(void *arg)
+{
+	asend *s  = arg;
+	int    rv = nng_aio_result(s->aio);
+	if (++s->ncb != 1)
+		vs_fail("C08:send-result", "[%s] second completion of one aio send", hist);
+	rec *r = &R[s->dir][s->tag];
+	r->done = ++clk;
+	if (rv == 0) {
+		r->accepted = 1;
+	} else {
+		vs_fail("C08:send-result", "[%s] waiting aio send %c%d failed: %s (no "
+		    "timeout, connection up, nobody cancelled)", hist, SND[s->dir], s->tag,
+		    nng_strerror(rv));
+	}
+	r->pending = 0;
+	s->busy    = 0;
+}
+
+static void
+do_asend(int who)
+{
+	if (nas[who] >= MAXAS) {
+		do_send(who);
+		return;
+	}
+	asend *s = &AS[who][nas[who]++];
+	s->dir   = who;
+	s->tag   = ntag[who]++;
+	s->busy  = 1;
+	s->ncb   = 0;
+	VH_OK(nng_aio_alloc(&s->aio, as_cb, s));
+	nng_aio_set_timeout(s->aio, NNG_DURATION_INFINITE);
+	nng_aio_set_msg(s->aio, mk_msg(who, s->tag));
+	R[who][s->tag].pending = 1;
+	R[who][s->tag].sub     = ++clk;
+	nng_socket_send(SK[who], s->aio);
+	vs_settle();
+	H(" asend%c%d=%s", SND[who], s->tag, s->busy ? "waits" : "ok");
 }
 
 static int
@@ -235,7 +296,8 @@ typedef struct seqarg {
 	int        nprefix;
 } seqarg;
 
-enum { L_SENDA, L_SENDB, L_RECVA, L_RECVB, L_THIRD, L_SBUF, L_RBUF, L_N };
+enum { L_SENDA, L_SENDB, L_RECVA, L_RECVB, L_THIRD, L_SBUF, L_RBUF, L_N, L_ASENDA = L_N, L_ASENDB,
+	L_NA };
 
 static int
 sopen(int proto, nng_socket *s)
@@ -283,7 +345,9 @@ run_seq(void *argp)
 	for (int d = 0; d < D_N; d++)
 		lastrx[d] = -1;
 	hist[0] = 0;
-	live_A = adds_A = c_open = 0;
+	live_A = adds_A = c_open = clk = 0;
+	memset(AS, 0, sizeof(AS));
+	nas[0] = nas[1] = 0;
 	H("pair%d:", a->proto);
 	VH_OK(sopen(a->proto, &SK[0]));
 	VH_OK(sopen(a->proto, &SK[1]));
@@ -326,6 +390,12 @@ run_seq(void *argp)
 		case L_RBUF:
 			do_resize(NNG_OPT_RECVBUF, "rbuf", D_BA, &rb, NEXT[a->cycle][rb]);
 			break;
+		case L_ASENDA:
+			do_asend(0);
+			break;
+		case L_ASENDB:
+			do_asend(1);
+			break;
 		}
 		if (live_A != 1)
 			vs_fail("C08:second-peer", "[%s] A has %d attached pipes", hist,
@@ -352,6 +422,14 @@ run_seq(void *argp)
 			do_send(1);
 		}
 	}
+	for (int d = 0; d < 2; d++)
+		for (int i = 0; i < nas[d]; i++) {
+			if (AS[d][i].busy)
+				vs_fail("C08:send-result", "[%s] aio send %c%d still waits after "
+				    "the peer drained everything (send blocks only while the "
+				    "peer is not reading)", hist, SND[d], AS[d][i].tag);
+			nng_aio_free(AS[d][i].aio);
+		}
 	int lost_total = 0;
 	for (int d = 0; d < 2; d++) {
 		int lost = 0;
@@ -952,8 +1030,17 @@ main(int argc, char **argv)
 	static const int P_SAT4[] = { L_SENDA, L_SENDA, L_SENDA, L_SENDA, L_SENDA,
 		L_SENDA, L_SENDA, L_SENDB, L_SENDB, L_SENDB, L_SENDB, L_SENDB, L_SENDB,
 		L_SENDB };
-	static seqarg    SQ[2][6];
+	// blocked senders: both directions saturated, then aio sends that wait
+	static const int P_BLK[]  = { L_SENDA, L_SENDA, L_SENDA, L_SENDA, L_SENDB, L_SENDB, L_SENDB,
+		 L_ASENDA, L_ASENDB };
+	static const int P_BLK4[] = { L_SENDA, L_SENDA, L_SENDA, L_SENDA, L_SENDA, L_SENDA, L_SENDA,
+		L_SENDB, L_SENDB, L_SENDB, L_SENDB, L_SENDB, L_SENDB, L_SENDB, L_ASENDA, L_ASENDA,
+		L_ASENDB };
+	static seqarg    SQ[2][9];
 	for (int p = 0; p < 2; p++) {
+		SQ[p][6] = (seqarg){ p, 0, 0, 0, L_NA, P_BLK, 9 };
+		SQ[p][7] = (seqarg){ p, 1, 0, 0, L_NA, P_BLK, 9 };
+		SQ[p][8] = (seqarg){ p, 2, 0, 0, L_NA, P_BLK4, 17 };
 		SQ[p][0] = (seqarg){ p, 0, 0, 0, L_N, NULL, 0 };
 		SQ[p][1] = (seqarg){ p, 1, 1, 0, L_N, NULL, 0 };
 		SQ[p][2] = (seqarg){ p, 0, 1, 0, L_N, P_SAT, 7 };
@@ -968,6 +1055,8 @@ main(int argc, char **argv)
 			explore_seq("third-c0", &SQ[p][4], 3, 3, 1);
 			explore_seq("sat4-c2", &SQ[p][5], 3, 3, 1);
 			explore_seq("init-c0", &SQ[p][0], 5, 4, 0.35);
+			explore_seq("blocked-c0", &SQ[p][6], 3, 2, 1);
+			explore_seq("blocked4-c2", &SQ[p][8], 2, 2, 1);
 		}
 	} else {
 		// each run gets its weight's share of the time that is still left
@@ -976,15 +1065,19 @@ main(int argc, char **argv)
 			const char *name;
 			int         proto, idx, dmax, dmin;
 			double      w;
-		} PLAN[] = { { "sat-c0", 0, 2, 5, 4, 1 }, { "sat-c1", 0, 3, 5, 4, 1 },
+		} PLAN[] = { { "blocked-c0", 0, 6, 4, 3, 1 }, { "blocked-c1", 0, 7, 4, 3, 1 },
+			{ "blocked4-c2", 0, 8, 4, 3, 1 }, { "blocked-c0", 1, 6, 4, 3, 1 },
+			{ "blocked-c1", 1, 7, 4, 3, 1 }, { "blocked4-c2", 1, 8, 4, 3, 1 },
+			{ "sat-c0", 0, 2, 5, 4, 1 }, { "sat-c1", 0, 3, 5, 4, 1 },
 			{ "third-c0", 0, 4, 5, 4, 1 }, { "sat-c0", 1, 2, 5, 4, 1 },
 			{ "sat-c1", 1, 3, 5, 4, 1 }, { "third-c0", 1, 4, 5, 4, 1 },
 			{ "init-c1", 0, 1, 6, 5, 3 }, { "init-c0", 0, 0, 6, 5, 3 },
 			{ "init-c1", 1, 1, 6, 5, 3 }, { "init-c0", 1, 0, 7, 5, 6 } };
 		double wrem = 0;
-		for (int i = 0; i < 10; i++)
+		const int NPLAN = (int) (sizeof(PLAN) / sizeof(PLAN[0]));
+		for (int i = 0; i < NPLAN; i++)
 			wrem += PLAN[i].w;
-		for (int i = 0; i < 10; i++) {
+		for (int i = 0; i < NPLAN; i++) {
 			double share = PLAN[i].w / wrem * (g_cap - used()) / g_cap;
 			explore_seq(PLAN[i].name, &SQ[PLAN[i].proto][PLAN[i].idx],
 			    PLAN[i].dmax, PLAN[i].dmin, share);
@@ -995,7 +1088,10 @@ main(int argc, char **argv)
 	    "%d letters: sendA sendB recvA recvB (non-blocking, tagged) third (C "
 	    "of the same protocol dials A / C's 10 ms redial fires; C sends and "
 	    "receives) sbufA rbufA (next size in cycle c0 1-2-0 / c1 1-0-2); "
-	    "epilogue: drain, one message each way, drain",
+	    "epilogue: drain, one message each way, drain; the blocked-* scenarios add asendA asendB "
+	    "(aio send without timeout that WAITS on back-pressure; tag fixed at submission, up to 5 per "
+	    "side; each must complete with 0 exactly once by the end of the drain and keep its place in "
+	    "the order)",
 	    L_N);
 	vx_note("scenarios", "pair0 and pair1, A listens inproc, B dials; seeded "
 	    "prefixes: sat (both directions saturated), third (C knocking from "
